@@ -123,8 +123,8 @@ type cfgSub struct {
 func (c *Cluster) pushConfig(s *cfgSub) {
 	c.w.mu.Lock()
 	body := append(c.configJSON(s.tag, s.bucket), []byte("\n\n\n\n")...)
-	s.sentRev = s.bucket.rev
-	rev := s.bucket.rev
+	s.sentRev = s.bucket.revKey()
+	rev := s.bucket.revKey()
 	c.w.mu.Unlock()
 	c.w.jl(&journal.Ev{K: journal.KNote, M: s.member, Vb: -1, S: "config-sent", S2: "http", I: rev, ID: fmt.Sprintf("%s.n%d|http", s.tag, s.node)})
 	_, _ = fmt.Fprintf(s.w, "%x\r\n%s\r\n", len(body), body)
